@@ -11,6 +11,7 @@ import (
 	"github.com/keep-network/keep-core/pkg/protocol/group"
 	"github.com/keep-network/keep-core/pkg/tecdsa"
 	"github.com/keep-network/keep-core/pkg/tecdsa/signing"
+	"golang.org/x/exp/slices"
 )
 
 // signingDoneReceiveBuffer is a buffer for messages received from the broadcast
@@ -113,6 +114,7 @@ func (sdc *signingDoneCheck) listen(
 					message,
 					attemptNumber,
 					attemptTimeoutBlock,
+					attemptMembersIndexes,
 				) {
 					continue
 				}
@@ -205,6 +207,7 @@ func (sdc *signingDoneCheck) isValidDoneMessage(
 	message *big.Int,
 	attemptNumber uint64,
 	attemptTimeoutBlock uint64,
+	attemptMembersIndexes []group.MemberIndex,
 ) bool {
 	_, signerDone := sdc.doneSigners[doneMessage.senderID]
 	if signerDone {
@@ -216,6 +219,11 @@ func (sdc *signingDoneCheck) isValidDoneMessage(
 		doneMessage.senderID,
 		senderPublicKey,
 	) {
+		return false
+	}
+
+	if !slices.Contains(attemptMembersIndexes, doneMessage.senderID) {
+		// only members included in the given attempt can confirm it
 		return false
 	}
 
